@@ -27,8 +27,8 @@ def _get_leaf_tensors(tensors: Iterable[Tensor], excluded: Iterable[Tensor]) -> 
 
     :param tensors: Tensors from which the graph traversal should start. They should all require
         grad and not be leaves.
-    :param excluded: Tensors whose grad_fn should be excluded from the graph traversal. They should
-        all require grad and not be leaves.
+    :param excluded: Tensors excluded from the graph traversal. They should all require grad and
+        not be leaves.
 
     """
 
@@ -39,25 +39,36 @@ def _get_leaf_tensors(tensors: Iterable[Tensor], excluded: Iterable[Tensor]) -> 
         raise ValueError("All `excluded` tensors should have a `grad_fn`.")
 
     accumulate_grads = _get_descendant_accumulate_grads(
-        roots={tensor.grad_fn for tensor in tensors},
-        excluded_nodes={tensor.grad_fn for tensor in excluded},
+        roots={(tensor.grad_fn, tensor.output_nr) for tensor in tensors},
+        excluded={(tensor.grad_fn, tensor.output_nr) for tensor in excluded},
     )
     leaves = {g.variable for g in accumulate_grads}
 
     return leaves
 
 
-def _get_descendant_accumulate_grads(roots: set[Node], excluded_nodes: set[Node]) -> set[Node]:
+def _get_descendant_accumulate_grads(
+    roots: set[tuple[Node, int]], excluded: set[tuple[Node, int]]
+) -> set[Node]:
     """
-    Gets the AccumulateGrad descendants of the specified nodes.
+    Gets the AccumulateGrad descendants of the specified tensors.
 
-    :param roots: Root nodes from which the graph traversal should start.
-    :param excluded_nodes: Nodes excluded from the graph traversal.
+    A tensor is identified by its ``grad_fn`` and its ``output_nr``: several tensors can share the
+    same ``grad_fn`` (e.g. the outputs of ``split`` or ``unbind``), and excluding one of them must
+    not exclude the others.
+
+    :param roots: ``(grad_fn, output_nr)`` of the tensors from which the graph traversal should
+        start.
+    :param excluded: ``(grad_fn, output_nr)`` of the tensors excluded from the graph traversal.
     """
 
-    excluded_nodes = set(excluded_nodes)  # Re-instantiate set to avoid modifying input
     result = set()
-    nodes_to_traverse = deque(roots - excluded_nodes)
+    visited = set()
+    nodes_to_traverse = deque()
+    for node, _ in roots - excluded:
+        if node not in visited:
+            nodes_to_traverse.append(node)
+            visited.add(node)
 
     # This implementation more or less follows what is advised in
     # https://discuss.pytorch.org/t/autograd-graph-traversal/213658 and what was suggested in
@@ -68,9 +79,9 @@ def _get_descendant_accumulate_grads(roots: set[Node], excluded_nodes: set[Node]
         if node.__class__.__name__ == "AccumulateGrad":
             result.add(node)
 
-        for child, _ in node.next_functions:
-            if child is not None and child not in excluded_nodes:
+        for child, output_nr in node.next_functions:
+            if child is not None and (child, output_nr) not in excluded and child not in visited:
                 nodes_to_traverse.append(child)  # Append to the right
-                excluded_nodes.add(child)
+                visited.add(child)
 
     return result
